@@ -2,7 +2,7 @@
 # usage: confirm_mutant.sh <dir with patch.diff and demo/>   -> prints CONFIRMED or the reason it is not
 # Confirms in a scratch worktree: patch applies, builds, suite green with it, demo fails with it and passes without.
 export GOFLAGS=-mod=mod GOPROXY=off GOSUMDB=off GOTOOLCHAIN=local
-d="$1"; wt=$(mktemp -d /tmp/confirm-XXXXXX); rmdir "$wt"
+d="$(readlink -f "$1")"; wt=$(mktemp -d /tmp/confirm-XXXXXX); rmdir "$wt"
 git -C /repo worktree add -q --detach "$wt" HEAD || exit 2
 cleanup() { git -C /repo worktree remove --force "$wt" 2>/dev/null; rm -rf "$wt"; }
 trap cleanup EXIT
@@ -31,4 +31,13 @@ git apply -R "$d/patch.diff"
 rc_without=0
 for p in $pkgs; do go test -vet=off -count=1 -run "^($names)\$" ./$p >demo_without.log 2>&1 || rc_without=1; done
 if [ $rc_with = 1 ] && [ $rc_without = 0 ]; then echo "CONFIRMED: $d (demo tests: $names)"; exit 0; fi
-echo "NOT-CONFIRMED: demo with change rc=$rc_with, without rc=$rc_without"; tail -5 demo_with.log demo_without.log; exit 1
+if [ $rc_with = 0 ] && [ $rc_without = 0 ]; then
+	# a demonstration that needs the race detector
+	git apply "$d/patch.diff"
+	rc_with=0
+	for p in $pkgs; do go test -race -vet=off -count=1 -run "^($names)\$" ./$p >demo_with.log 2>&1 || rc_with=1; done
+	git apply -R "$d/patch.diff"
+	for p in $pkgs; do go test -race -vet=off -count=1 -run "^($names)\$" ./$p >demo_without.log 2>&1 || rc_without=1; done
+	if [ $rc_with = 1 ] && [ $rc_without = 0 ]; then echo "CONFIRMED (with -race): $d (demo tests: $names)"; exit 0; fi
+fi
+echo "NOT-CONFIRMED: demo with change rc=$rc_with, without rc=$rc_without"; tail -n 5 demo_with.log; tail -n 5 demo_without.log; exit 1
